@@ -581,7 +581,10 @@ class _Judge(object):
             # bytes the parser rejects: a failing allocation may turn the answer into NoMemory, never into a message
             self.part.count("lib:demarshal:reference-rejected")
             if ref["err"] == NOMEM:
-                self.bad("nomem-without-fault", "fault-free demarshal reports NoMemory", ref)
+                # dbus_message_demarshal reports NoMemory when the loader neither yields a message nor flags corruption,
+                # i.e. for bytes it takes for an incomplete message.  No allocation failed, so this is not this
+                # property's subject (accept/reject is C01's); such inputs cannot be judged under faults either.
+                self.part.count("lib:demarshal:reference-nomem-for-incomplete-input(not judged)")
                 return
             for run in runs:
                 self.common(run)
